@@ -276,6 +276,7 @@ class REPL(code.InteractiveConsole):
         self.spy_delimiter = spy_delimiter
         self.last_value = None
         self.print_last_value = True
+        self.has_new_value = False
 
         if output_fn is None:
             self.output_fn = hy.repr
@@ -340,6 +341,7 @@ class REPL(code.InteractiveConsole):
         try:
             eval(code[0], self.locals)
             self.last_value = eval(code[1], self.locals)
+            self.has_new_value = True
             # Don't print `None` values.
             self.print_last_value = self.last_value is not None
         except SystemExit:
@@ -350,6 +352,7 @@ class REPL(code.InteractiveConsole):
             self.showtraceback()
 
     def runsource(self, source, filename="<stdin>", symbol="exec"):
+        self.has_new_value = False
         try:
             res = super().runsource(source, filename, symbol)
         except (HyMacroExpansionError, HyRequireError):
@@ -363,8 +366,9 @@ class REPL(code.InteractiveConsole):
             self.showtraceback()
             return False
 
-        # Shift exisitng REPL results
-        if not res:
+        # Shift exisitng REPL results, unless the input failed and so
+        # produced no new value.
+        if not res and self.has_new_value:
             next_result = self.last_value
             for sym in self._repl_results_symbols:
                 self.locals[sym], next_result = next_result, self.locals[sym]
